@@ -70,11 +70,13 @@ func (m *Mux) NewEndpoint(matchFunc MatchFunc) *Endpoint {
 	// Set a maximum size of the buffer in bytes.
 	endpoint.buffer.SetLimitSize(maxBufferSize)
 
+	// Register the endpoint and hand it the packets that were queued for it in
+	// one critical section: a packet dispatched after this point must not be
+	// able to overtake the queued ones.
 	m.lock.Lock()
 	m.endpoints[endpoint] = matchFunc
+	m.flushPendingPackets(endpoint, matchFunc)
 	m.lock.Unlock()
-
-	go m.handlePendingPackets(endpoint, matchFunc)
 
 	return endpoint
 }
@@ -198,10 +200,9 @@ func (m *Mux) dispatch(buf []byte) error {
 	return err
 }
 
-func (m *Mux) handlePendingPackets(endpoint *Endpoint, matchFunc MatchFunc) {
-	m.lock.Lock()
-	defer m.lock.Unlock()
-
+// flushPendingPackets moves the queued packets matching matchFunc to endpoint.
+// The caller must hold m.lock.
+func (m *Mux) flushPendingPackets(endpoint *Endpoint, matchFunc MatchFunc) {
 	pendingPackets := make([][]byte, 0, len(m.pendingPackets))
 	for _, buf := range m.pendingPackets {
 		if matchFunc(buf) {
